@@ -110,6 +110,13 @@ Section C17.
       Permutation (from_group N root target) (flatten_ref N g Manc).
   Proof. exact (from_group_is_ref N OK). Qed.
 
+  (* recursive=False: exactly the shapes that are children of the group itself,
+     with the product of all ancestors' transforms, the group's and their own *)
+  Theorem C17_from_group_nonrecursive : forall root target g Manc,
+      subtree_at N root target (mI N) = Some (g, Manc) -> is_group g ->
+      Permutation (from_group_nr N root target) (direct_ref N g Manc).
+  Proof. exact (from_group_nr_is_ref N OK). Qed.
+
   (* Document.paths_from_group(element): as above when the group has children
      (pinned and repaired code) ... *)
   Theorem C17_paths_from_group_partial : forall c root target tf ch kids Manc,
@@ -377,6 +384,7 @@ Print Assumptions C17_stack_is_rec.
 Print Assumptions C17_stack_order.
 Print Assumptions C17_compose.
 Print Assumptions C17_from_group.
+Print Assumptions C17_from_group_nonrecursive.
 Print Assumptions C17_paths_from_group_partial.
 Print Assumptions C17_paths_from_group.
 Print Assumptions C17_shapes_line.
